@@ -259,7 +259,9 @@ func init() {
 				t.run(run, steps, nil, c10After)
 				l.Eval()
 				l.Trace()
-				l.States++
+				if !l.Mute {
+					l.States++
+				}
 				l.Nontrivial(sc.name + "/" + hist(t))
 				var rem []string
 				for _, c := range t.w.Client.Log {
@@ -284,4 +286,42 @@ func init() {
 			}
 		})
 	})
+}
+
+func termReplayer(scenarios []termScenario, faults func(c *world.Call) bool, after func(c *world.Call, t *termRun), final func(t *termRun)) Replayer {
+	return func(d map[string]any) []string {
+		name, _ := d["scenario"].(string)
+		for _, sc := range scenarios {
+			if sc.name != name {
+				continue
+			}
+			t := buildTerm(sc)
+			t.run(explore.ReplayPlan(intList(d["choices"]), intMap(d["faults"])), 30, faults, after)
+			if final != nil {
+				final(t)
+			}
+			fmt.Printf("scenario %s\nhistory %v\n", sc.name, t.history)
+			for _, c := range callStrings(t.w) {
+				fmt.Println("  call:", c)
+			}
+			var sigs []string
+			for _, v := range t.viol {
+				fmt.Printf("violation %q: %s\n", v.Sig, v.Msg)
+				sigs = append(sigs, v.Sig)
+			}
+			return sigs
+		}
+		fmt.Println("unknown scenario", name)
+		return nil
+	}
+}
+
+func init() {
+	registerReplay("C10", termReplayer(drainScenarios, nil, c10After, nil))
+	registerReplay("C09", termReplayer(termScenarios, func(c *world.Call) bool { return true }, c09After, func(t *termRun) {
+		w := t.w
+		if w.GetNodeClaim(t.nc.Name) == nil && t.nc.Status.ProviderID != "" && w.CP.Instance(t.nc.Status.ProviderID) != nil {
+			t.viol = append(t.viol, c01Violation{"instance leaked", "NodeClaim is gone but the provider still has its instance"})
+		}
+	}))
 }
